@@ -25,7 +25,11 @@ fn widened_windows(rounds: u8, p0_us: u16, p1_us: u16, out: &mut Outcome) {
         put(&ka, 0);
         put(&kb, 0);
         let Ok(a) = cache.load::<Ver>(&ka) else { return };
-        // let the reloader register a and go back to sleep
+        if round % 2 == 1 {
+            // variant: b is already registered when the cache is cleared and b is loaded again (below)
+            let _ = cache.load::<Ver>(&kb);
+        }
+        // let the reloader register a (and b) and go back to sleep
         std::thread::sleep(std::time::Duration::from_millis(3));
         verif::set_schedule_hook(Some(std::sync::Arc::new(move |point| {
             std::thread::sleep(std::time::Duration::from_micros(if point == 0 { p0_us } else { p1_us } as u64));
@@ -35,7 +39,8 @@ fn widened_windows(rounds: u8, p0_us: u16, p1_us: u16, out: &mut Outcome) {
         cache.hot_reload();
         let a_now = a.read().0;
         if round % 2 == 1 {
-            // variant: the cache is emptied first (a message that precedes the notification of b's change)
+            // variant: the cache is emptied first (a message that precedes the notification of b's change; examined
+            // before that message the notification matches b's old registration and is then forgotten with it)
             cache.clear();
         }
         let Ok(b) = cache.load::<Ver>(&kb) else {
